@@ -46,7 +46,10 @@ Fixpoint deval_expr (fuel : nat) (e : expr) (env : nat) (st : state) (d : dstate
           match first with
           | VProcU _ _ _ _ | VProcB _ =>
               dod (vs, st3, d3) <- (rargs, st2, d2) ;; dapply_proc f first vs env st3 d3
-          | _ => (lerr TypeMisMatch (eloc fe), st2, d2)
+          | _ => match rargs with
+                 | OutOfFuel => (OutOfFuel, st2, d2)
+                 | _ => (lerr TypeMisMatch (eloc fe), st2, d2)
+                 end
           end
       | ESet x ve _ =>
           dod (v, st1, d1) <- deval_expr f ve env st d ;;
